@@ -1,4 +1,6 @@
 import LexVerif.Spec.ParseInt
+import LexVerif.Proof.ParseIntMain
+import LexVerif.Proof.ParseIntSwar
 /-!
 # C04 — string→integer parsing is exact with exact overflow detection (property theorems)
 -/
@@ -41,5 +43,89 @@ theorem spec_index_le_length (t : IntTy) (r : Nat) (p : Bool) (s : List Nat) :
     | cons c cs =>
       have := scanDigits_index_le r (t.maxMag neg) neg p (c :: cs) 0 i
       simp only at *; omega
+
+
+/-! ## the model of `lexical-parse-integer/src/algorithm.rs` computes the specification -/
+
+open LexVerif.Model LexVerif.Model.ParseInt LexVerif.Proof.ParseInt
+
+/-- The full statement of C04 on the model: for each of the 12 integer types (10 distinct (bits, signed) pairs;
+`usize/isize` are 64-bit), every radix 2..36 the feature set allows (`power-of-two`/`radix` builds: any;
+otherwise the format validator only lets radix 10 through), both parsers, both `no_multi_digit` settings
+and every byte string, the model returns exactly what the left-to-right scan of the specification
+returns (in particular never `FAULT`). -/
+def parseInt_model_eq_spec_full : Prop :=
+  ∀ (feats : Features) (t : IntTy), IsIntTy t → ∀ (r : Nat), 2 ≤ r → r ≤ 36 → (feats.powerOfTwo = true ∨ r = 10) →
+    ∀ (partial_ noMulti : Bool) (s : List Nat), (∀ b ∈ s, b < 256) →
+      Model.ParseInt.parseInt feats t r partial_ noMulti s = .done (Spec.parseInt t r partial_ s)
+
+theorem hmulti_of {feats : Features} {r : Nat} {nm : Bool} (hfeat : feats.powerOfTwo = true ∨ r = 10)
+    (hsw : r ≤ 10 → SwarCorrect r) : (canMulti feats r && !nm) = true → r ≤ 10 ∧ SwarCorrect r := by
+  intro h
+  have h10 : r ≤ 10 := by
+    rcases hfeat with hp | h10
+    · simp [canMulti, hp] at h; exact h.1
+    · omega
+  exact ⟨h10, hsw h10⟩
+
+/-- C04 on the model, conditional on the correctness of the four SWAR kernels for the radix in use
+(`SwarCorrect r`: `is_{4,8}digits` ⇔ all bytes are digits, `parse_{4,8}digits` = positional value). -/
+theorem parseInt_model_eq_spec_partial (feats : Features) (t : IntTy) (ht : IsIntTy t) (r : Nat) (h2 : 2 ≤ r)
+    (hr : r ≤ 36) (hfeat : feats.powerOfTwo = true ∨ r = 10) (hsw : r ≤ 10 → SwarCorrect r)
+    (partial_ noMulti : Bool) (s : List Nat) (hs : ∀ b ∈ s, b < 256) :
+    Model.ParseInt.parseInt feats t r partial_ noMulti s = .done (Spec.parseInt t r partial_ s) :=
+  parseInt_eq_spec_of feats t ht h2 hr partial_ noMulti (hmulti_of hfeat hsw) s hs
+
+/-- C04 on the model with `no_multi_digit = true` (no SWAR code is reached): unconditional, any feature set. -/
+theorem parseInt_model_eq_spec_noMulti (feats : Features) (t : IntTy) (ht : IsIntTy t) (r : Nat) (h2 : 2 ≤ r)
+    (hr : r ≤ 36) (partial_ : Bool) (s : List Nat) (hs : ∀ b ∈ s, b < 256) :
+    Model.ParseInt.parseInt feats t r partial_ true s = .done (Spec.parseInt t r partial_ s) :=
+  parseInt_eq_spec_of feats t ht h2 hr partial_ true (by simp) s hs
+
+/-- **C04 on the model, unconditional**: for each of the 12 integer types, every radix 2..36 accepted by the
+feature set, `parse` and `parse_partial`, `no_multi_digit` on and off, and every byte string, the model of
+`algorithm.rs` (wrapping prefix of `overflow_digits` digits incl. the 4/8-digit SWAR loops, then the
+`checked_mul`/`checked_add|sub` tail) returns exactly the result of the specification's exact left-to-right scan. -/
+theorem parseInt_model_eq_spec (feats : Features) (t : IntTy) (ht : IsIntTy t) (r : Nat) (h2 : 2 ≤ r)
+    (hr : r ≤ 36) (hfeat : feats.powerOfTwo = true ∨ r = 10)
+    (partial_ noMulti : Bool) (s : List Nat) (hs : ∀ b ∈ s, b < 256) :
+    Model.ParseInt.parseInt feats t r partial_ noMulti s = .done (Spec.parseInt t r partial_ s) :=
+  parseInt_model_eq_spec_partial feats t ht r h2 hr hfeat (fun h10 => swarCorrect h2 h10) partial_ noMulti s hs
+
+theorem parseInt_model_eq_spec_full_holds : parseInt_model_eq_spec_full :=
+  fun feats t ht r h2 hr hfeat p nm s hs => parseInt_model_eq_spec feats t ht r h2 hr hfeat p nm s hs
+
+/-- the SWAR kernels are correct for every radix that can reach them -/
+theorem swar_correct (r : Nat) (h2 : 2 ≤ r) (h10 : r ≤ 10) : SwarCorrect r := swarCorrect h2 h10
+
+/-- `overflow_digits(radix)` digits never leave the positive range of the type -/
+theorem overflowDigits_is_safe (t : IntTy) (ht : IsIntTy t) (r : Nat) (h2 : 2 ≤ r) (hr : r ≤ 36) :
+    r ^ overflowDigits t r ≤ t.maxMag false + 1 := overflowDigits_safe t ht h2 hr
+
+/-- consequences for the model: no unchecked access goes out of bounds, and no reported index exceeds the input length -/
+theorem model_no_fault_index_le (feats : Features) (t : IntTy) (ht : IsIntTy t) (r : Nat) (h2 : 2 ≤ r)
+    (hr : r ≤ 36) (hfeat : feats.powerOfTwo = true ∨ r = 10)
+    (partial_ noMulti : Bool) (s : List Nat) (hs : ∀ b ∈ s, b < 256) :
+    ∃ res, Model.ParseInt.parseInt feats t r partial_ noMulti s = .done res ∧ PRes.index res ≤ s.length :=
+  ⟨_, parseInt_model_eq_spec feats t ht r h2 hr hfeat partial_ noMulti s hs, spec_index_le_length t r partial_ s⟩
+
+/-- non-vacuity: the model reports `Overflow` at the digit where the value leaves the range -/
+example : Model.ParseInt.parseInt {} ⟨8, false⟩ 10 false false [50, 53, 54] = .done (.overflow 2) := by decide
+example : Model.ParseInt.parseInt {} ⟨8, true⟩ 10 false false [45, 49, 50, 57] = .done (.underflow 3) := by decide
+/-- … also through the 8-digit SWAR loop (u64, "18446744073709551616" = 2^64) -/
+example : Model.ParseInt.parseInt {} ⟨64, false⟩ 10 false false
+    [49, 56, 52, 52, 54, 55, 52, 52, 48, 55, 51, 55, 48, 57, 53, 53, 49, 54, 49, 54] = .done (.overflow 19) := by
+  decide +kernel
+example : Model.ParseInt.parseInt {} ⟨64, false⟩ 10 false false
+    [49, 56, 52, 52, 54, 55, 52, 52, 48, 55, 51, 55, 48, 57, 53, 53, 49, 54, 49, 53] = .done (.ok 18446744073709551615 20) := by
+  decide +kernel
+
+
+/-- The hypothesis `feats.powerOfTwo = true ∨ r = 10` is needed *on the model*: without the `power-of-two`
+feature `can_try_parse_multidigits` is `true` for every radix, so a radix-16 call would send `":000"` through
+`is_4digits` (which then accepts `0x30..0x3F`) and return a value instead of `InvalidDigit(0)`. The public API
+cannot get there: in such builds `format.is_valid()` rejects every radix other than 10 before `algorithm!` runs. -/
+example : Model.ParseInt.parseInt {} ⟨32, false⟩ 16 false false [58, 48, 48, 48]
+    ≠ .done (Spec.parseInt ⟨32, false⟩ 16 false [58, 48, 48, 48]) := by decide +kernel
 
 end LexVerif.Props.C04
